@@ -62,9 +62,9 @@ def fuel_for(case):
 
 
 def coq_case(case, res):
-    return "mkCase %s %s %s %s %d %s %s" % (
-        coq_chain(case["chain"]), coq_src(case["src"]), C.coq_zlist(case.get("draws", [])),
-        C.coq_z(case["horizon"]), fuel_for(case),
+    return "mkCase %s %s %s %s %d %s %s %s" % (
+        coq_chain(case["chain"]), coq_src(case["src"]), C.coq_zlist(case.get("draws") or res.get("draws") or []),
+        C.coq_z(case["horizon"]), fuel_for(case), C.coq_zlist(case.get("sink_delay") or []),
         C.coq_list(["(%d, %d)" % (w["t"], w["n"]) for w in (res["writes"] or [])]), C.coq_z(res["closed"]))
 
 
